@@ -251,6 +251,8 @@ def _bytes_tokens(title, box9, ext_ok, corr, mols):
     """request of `extrapolate_bytes` (C05 x C13 composed model): as `_model_tokens`, numbers as exact dyadics,
     velocities included; None when something is outside the byte model (non-finite number, non-latin-1 text)"""
     from ..grogen import dy
+    if not str(title).isascii():
+        return None         # the byte model renders text as latin-1; the files are UTF-8 (the oracle reads them as such)
     try:
         t = [hexs(title), "1" if ext_ok else "0"] + [dy(b) for b in box9]
         t.append(str(len(corr)))
@@ -427,7 +429,7 @@ def _eval_bignum(ctx, case):
         for l in body[:-1]:
             resids.append(int(l[0:5]))
             nums.append(int(l[15:20]))
-        if int(count_line) != nmol * n_aa:
+        if not count_line.strip().isdigit() or int(count_line) != nmol * n_aa:
             ctx.oracle_fail("extrapolate:count:bignum", case, {"count": count_line.strip(), "want": nmol * n_aa})
         want = [(k + 1) % 100000 for k in range(nmol * n_aa)]
         if nums != want:
